@@ -2369,6 +2369,8 @@ def explore_c19(prop, pd, tier, rng, corpus_cases):
         pls = [b'\x00\x01\x00\x08' + rng.bytes(16) + b'\x00\x03\x00\x04' + struct.pack('>I', fl) for fl in (0, 2, 4, 6, 7)]
         pls += [b'\x00\x01\x00\x00' + rng.bytes(16), gen.gen_stun_long(rng), struct.pack('>HHHHHH', 9, 0x0100, 1, 0, 0, 0) + b'\x01a\x00\x00\x01\x00\x01',
                 gen.gen_rpc(rng, False), b'GET / HTTP/1.1\r\n\r\n']
+        pls += [struct.pack('>HHHHHH', 9, 0x0100, 1, 0, 0, 0) + b'\x03www\x07example\x03com\x00' + struct.pack('>HH', qt, qc)
+                for qt in (1, 28, 255, 16, 2, 5, 6, 12, 15, 33, 41, 65) for qc in (1, 255)]
         sops = [('C', w2.cfg()), ('X',)]
         pairs = []
         for pl in pls:
@@ -2567,6 +2569,23 @@ def explore_c08(prop, pd, tier, rng, corpus_cases):
             ids = []
             for vh in ([], [a1], [a1, b1], [b1], [b1, a1], [fr(whole, 0)]):
                 cases.append({'ops': [fwcfg, ('X',)] + [('F', x) for x in vh] + [('F', probe)], 'tags': ['stateless-probe', 'probe:last-fragment']})
+                ids.append(len(cases) - 1)
+            groups.append((ids, probe, fwcfg))
+    # deterministically: a valid request over UDP after unfinished versions of it (and of other requests of the protocol) from another endpoint
+    for pl, dp in ((b'GET / HTTP/1.1\r\nHost: a\r\n\r\n', 80), (b'POST /x HTTP/1.0\n\n', 8080),
+                   (struct.pack('>HHHHHH', 7, 0x0100, 1, 0, 0, 0) + b'\x03www\x07example\x03com\x00' + struct.pack('>HH', 1, 1), 53),
+                   (b'\x00\x01\x00\x08' + bytes(range(16)) + b'\x00\x03\x00\x04\x00\x00\x00\x02', 3478),
+                   (struct.pack('>IIIIIIIIII', 0x71223344, 0, 2, 100000, 2, 3, 0, 0, 0, 0), 111)):
+        for v6 in (False, True):
+            src, dst = fw.addrs(v6)
+            src2 = bytes([src[0] ^ 1]) + src[1:]
+            mk = lambda s_, sp_, p_: eth(fw.mac, fw.cl_mac, 0x86dd if v6 else 0x0800,
+                                         ipv6(s_, dst, 17, lib.udp(sp_, dp, p_, src=s_, dst=dst)) if v6 else ipv4(s_, dst, 17, lib.udp(sp_, dp, p_, src=s_, dst=dst)))
+            probe = mk(src, 1111, pl)
+            cuts = sorted(set([pl.find(b'\n') + 1 if b'\n' in pl else len(pl) // 2, len(pl) // 2, len(pl) - 1, len(pl) - 2, 12, 1]))
+            ids = []
+            for vh in [[]] + [[mk(src2, 2222, pl[:k])] for k in cuts if 0 < k < len(pl)] + [[mk(src2, 2222, pl[:k]) for k in cuts if 0 < k < len(pl)]]:
+                cases.append({'ops': [fwcfg, ('X',)] + [('F', x) for x in vh] + [('F', probe)], 'tags': ['stateless-probe', 'probe:after-unfinished']})
                 ids.append(len(cases) - 1)
             groups.append((ids, probe, fwcfg))
     # every variant in a fresh implementation process: state kept outside the connection table (which `X` cannot reset) would
